@@ -84,3 +84,14 @@ package redisemu
 //@ func net.Listener.Close
 //@ trusted closing the listening socket: no effect on the emulator state modelled here
 //@ modifies
+
+// C20: when a connection's state machine reaches its final state the socket is
+// closed on every path (whether or not a close was requested before) and the
+// client leaves the registry
+//@ func clientCxn.onTerminate
+//@ prop C20
+//@ safetyprop none
+//@ requires cc != nil && cc.cs != nil
+//@ requires !gSocketClosed
+//@ modifies *
+//@ ensures [C20] socket.closed: gSocketClosed
